@@ -86,8 +86,12 @@ namespace options
         std::map<std::string, nitro::options::multi_option*> get_all_multi_options() const;
         std::map<std::string, nitro::options::toggle*> get_all_toggles() const;
 
+        auto parse_tokens(const std::vector<std::string>& args) -> arguments;
+
+        static bool is_value_token(const std::string& token);
+
         template <typename Options, typename Iter>
-        bool try_parse_as_option(Options&& options, Iter& it, Iter end);
+        bool try_parse_as_option(Options&& options, const user_input& in, Iter& it, Iter end);
         bool try_parse_as_toggle(const user_input&);
         void check_short_list(const user_input&);
 
